@@ -213,6 +213,63 @@ func (r *Run) SyncFeeds() {
 	r.Exp = nil
 }
 
+// ---- feeds started and stopped in the middle of a history ------------------------------------
+
+func init() {
+	pseudoHandlers["StartFeed"] = func(r *Run, op Op) { r.StartFeedStep(op) }
+	pseudoHandlers["StopFeed"] = func(r *Run, op Op) { r.StopFeedStep(op) }
+}
+
+// StartFeedStep starts one more live feed (no backfill) on collection op.C through handle op.H.
+func (r *Run) StartFeedStep(op Op) {
+	w := r.W
+	tr := StepTrace{Op: op, Outcome: "feed-started"}
+	defer func() { r.Trace = append(r.Trace, tr) }()
+	r.SyncFeeds() // everything so far is settled: the new feed owes nothing for it
+	keysOnly, _ := op.Arg["keysOnly"].(bool)
+	c, err := w.StartLiveFeed(FeedCfg{H: op.H, C: op.C, KeysOnly: keysOnly})
+	if err != nil {
+		r.dev("feed.start", []string{"C08"}, "StartDCPFeed on %s through handle %d failed: %v", w.Cfg.Colls[op.C], op.H, err)
+		tr.Outcome = "DEVIATION"
+		return
+	}
+	w.Feeds = append(w.Feeds, c)
+}
+
+// StopFeedStep ends feed number arg.i (of those running) by its terminator: it must close its done
+// channel, and the feeds that keep running must keep receiving exactly their events.
+func (r *Run) StopFeedStep(op Op) {
+	w := r.W
+	tr := StepTrace{Op: op, Outcome: "feed-stopped"}
+	defer func() { r.Trace = append(r.Trace, tr) }()
+	if len(w.Feeds) == 0 {
+		tr.Outcome = "no-feed"
+		return
+	}
+	r.SyncFeeds()
+	fi, _ := op.Arg["i"].(float64)
+	if x, ok := op.Arg["i"].(int); ok {
+		fi = float64(x)
+	}
+	i := int(fi) % len(w.Feeds)
+	f := w.Feeds[i]
+	if !f.StopAndWait() {
+		r.dev("feed.notended", []string{"C16"}, "feed %d (%+v) did not close its done channel after its terminator was closed", i, f.Cfg)
+		tr.Outcome = "DEVIATION"
+	}
+	w.Feeds = append(append([]*Collector{}, w.Feeds[:i]...), w.Feeds[i+1:]...)
+	r.stoppedFeeds = append(r.stoppedFeeds, f)
+}
+
+// checkStoppedFeeds: a feed that was ended earlier got no callback after its done channel closed.
+func (r *Run) checkStoppedFeeds() {
+	for _, f := range r.stoppedFeeds {
+		if n := f.afterDone.Load(); n > 0 {
+			r.dev("feed.afterdone", []string{"C16"}, "a feed (%+v) ended by its terminator had its callback invoked %d times after its done channel closed", f.Cfg, n)
+		}
+	}
+}
+
 type evDecoded struct {
 	ev     sgbucket.FeedEvent
 	body   []byte
